@@ -226,6 +226,49 @@ theorem limit_respected (c : Cfg) (ops : List Op) (u : Nat) (hm : maxOf c u ≠ 
     | setUp q b => exact hl
     | plan t q b => exact hl
 
+/-! ### limits under concurrent connections: the check-then-act window
+`Handle` selects (checks `full`) and counts the connection only after the dial succeeded, so connections selected concurrently can
+overshoot the limit.  The small system below has exactly that window (any number of clients between `select` and
+`dialOk` / `dialFail`); the overshoot is bounded by the peak number of dials in flight, and there is none when connections
+arrive one at a time. -/
+structure LSt where
+  conns : Nat := 0       -- counted (open proxied) connections of the upstream
+  inflight : Nat := 0    -- selected, dial not finished
+  peak : Nat := 0        -- ghost: the largest number of dials ever in flight at once
+
+inductive LAct | select | dialOk | dialFail | close deriving DecidableEq
+
+def lstep (lim : Nat) (s : LSt) : LAct → Option LSt
+  | .select => if s.conns < lim then some { s with inflight := s.inflight + 1, peak := max s.peak (s.inflight + 1) } else none
+  | .dialOk => if 0 < s.inflight then some { s with inflight := s.inflight - 1, conns := s.conns + 1 } else none
+  | .dialFail => if 0 < s.inflight then some { s with inflight := s.inflight - 1 } else none
+  | .close => if 0 < s.conns then some { s with conns := s.conns - 1 } else none
+
+def lrun (lim : Nat) (s : LSt) : List LAct → Option LSt
+  | [] => some s
+  | a :: as => match lstep lim s a with
+    | some s' => lrun lim s' as
+    | none => none
+
+theorem limit_overshoot_bounded_by_inflight (lim : Nat) (hl : 0 < lim) (acts : List LAct) (s : LSt) (h : lrun lim {} acts = some s) :
+    s.conns + s.inflight ≤ (lim - 1) + s.peak ∧ s.inflight ≤ s.peak ∧ (s.peak ≤ 1 → s.conns ≤ lim) := by
+  suffices H : ∀ (s₀ : LSt), (s₀.conns + s₀.inflight ≤ (lim - 1) + s₀.peak ∧ s₀.inflight ≤ s₀.peak) →
+      lrun lim s₀ acts = some s → s.conns + s.inflight ≤ (lim - 1) + s.peak ∧ s.inflight ≤ s.peak by
+    have := H {} (by simp) h
+    refine ⟨this.1, this.2, fun hp => ?_⟩
+    omega
+  intro s₀ hi hr
+  clear h
+  induction acts generalizing s₀ with
+  | nil => simp [lrun] at hr; subst hr; exact hi
+  | cons a as ih =>
+    simp only [lrun] at hr
+    split at hr
+    · rename_i s1 hs1
+      refine ih s1 ?_ hr
+      cases a <;> simp only [lstep] at hs1 <;> split at hs1 <;> cases hs1 <;> (simp only []; omega)
+    · cases hr
+
 /-! ### retries -/
 /-- the retry loop, seen from attempt number `k` made at `start + k · interval` -/
 theorem retry_schedule_aux (c : Cfg) (start : Nat) (fuel : Nat) (s : St) (err : Option Outcome) (att : List Nat) (k : Nat)
